@@ -1,20 +1,1005 @@
 package main
 
 import (
+	"context"
+	"fmt"
+	"go/token"
+	"go/types"
+	"sort"
+	"strings"
+
 	"golang.org/x/tools/go/ssa"
 )
 
+// ---- static may-write analysis (heap keys a set of blocks can modify) ----
+
+type keySort struct{ key, sort string }
+
+type writeSet struct {
+	keys  map[string]string // heap key -> sort
+	cells map[*ssa.Alloc]bool
+	all   bool // unknown code: everything may change
+	alloc bool
+}
+
+func newWriteSet() *writeSet {
+	return &writeSet{keys: map[string]string{}, cells: map[*ssa.Alloc]bool{}}
+}
+
+func (w *writeSet) union(o *writeSet) {
+	for k, s := range o.keys {
+		w.keys[k] = s
+	}
+	for c := range o.cells {
+		w.cells[c] = true
+	}
+	w.all = w.all || o.all
+	w.alloc = w.alloc || o.alloc
+}
+
+// leavesOf lists (suffix, leaf sort) of type t, statically.
+func (x *X) leavesOf(t types.Type) (out []keySort, ok bool) {
+	ok = true
+	defer func() {
+		if r := recover(); r != nil {
+			if _, isU := r.(unsupported); isU {
+				ok = false
+				return
+			}
+			panic(r)
+		}
+	}()
+	x.forLeaves(t, "", func(suffix, sort, zero string) { out = append(out, keySort{suffix, sort}) })
+	return
+}
+
+func (x *X) addKeys(w *writeSet, l loc, t types.Type) {
+	if at, isArr := t.Underlying().(*types.Array); isArr {
+		x.addKeys(w, loc{key: "E:" + typeKey(at.Elem()), idx: []string{"a", "i"}}, at.Elem())
+		return
+	}
+	ls, ok := x.leavesOf(t)
+	if !ok {
+		w.all = true
+		return
+	}
+	for _, lf := range ls {
+		w.keys[l.key+lf.key] = heapSortFor(l, lf.sort)
+	}
+}
+
+// addrLoc resolves an address expression to a heap location skeleton.
+func (x *X) addrLoc(v ssa.Value) (l loc, cell *ssa.Alloc, ok bool) {
+	switch v := v.(type) {
+	case *ssa.FieldAddr:
+		b, c, ok := x.addrLoc(v.X)
+		if !ok {
+			return loc{}, nil, false
+		}
+		if c != nil {
+			return loc{}, c, true
+		}
+		st := v.X.Type().Underlying().(*types.Pointer).Elem().Underlying().(*types.Struct)
+		return b.field(st.Field(v.Field).Name()), nil, true
+	case *ssa.IndexAddr:
+		switch t := v.X.Type().Underlying().(type) {
+		case *types.Slice:
+			return loc{key: "E:" + typeKey(t.Elem()), idx: []string{"a", "i"}}, nil, true
+		case *types.Pointer:
+			if at, isArr := t.Elem().Underlying().(*types.Array); isArr {
+				if _, c, ok := x.addrLoc(v.X); ok && c != nil {
+					return loc{}, c, true
+				}
+				return loc{key: "E:" + typeKey(at.Elem()), idx: []string{"a", "i"}}, nil, true
+			}
+		}
+		return loc{}, nil, false
+	case *ssa.Alloc:
+		if !v.Heap {
+			return loc{}, v, true
+		}
+	case *ssa.Global:
+		root := v.Type().(*types.Pointer).Elem()
+		if kindOf(root) != kStruct {
+			return loc{key: "G:" + v.Pkg.Pkg.Name() + "." + v.Name()}, nil, true
+		}
+	case *ssa.Phi:
+		// phi of cell addresses is not tracked
+		for _, e := range v.Edges {
+			if a, isA := e.(*ssa.Alloc); isA && !a.Heap {
+				return loc{}, nil, false
+			}
+		}
+	}
+	pt, isPtr := v.Type().Underlying().(*types.Pointer)
+	if !isPtr {
+		return loc{}, nil, false
+	}
+	return objLoc(pt.Elem(), "r"), nil, true
+}
+
+
+func (x *X) fnWrites(fn *ssa.Function) *writeSet {
+	if x.wsMemo == nil {
+		x.wsMemo = map[*ssa.Function]*writeSet{}
+		x.wsBusy = map[*ssa.Function]bool{}
+	}
+	if w, ok := x.wsMemo[fn]; ok {
+		return w
+	}
+	if x.wsBusy[fn] {
+		w := newWriteSet()
+		w.all = true // recursion: give up
+		return w
+	}
+	if fn.Blocks == nil {
+		w := newWriteSet()
+		w.all = true
+		return w
+	}
+	x.wsBusy[fn] = true
+	w := x.blockWrites(fn, nil)
+	delete(x.wsBusy, fn)
+	x.wsMemo[fn] = w
+	return w
+}
+
+func (x *X) blockWrites(fn *ssa.Function, only map[int]bool) *writeSet {
+	w := newWriteSet()
+	for _, b := range fn.Blocks {
+		if only != nil && !only[b.Index] {
+			continue
+		}
+		for _, in := range b.Instrs {
+			switch in := in.(type) {
+			case *ssa.Store:
+				l, c, ok := x.addrLoc(in.Addr)
+				switch {
+				case !ok:
+					w.all = true
+				case c != nil:
+					w.cells[c] = true
+				default:
+					x.addKeys(w, l, in.Val.Type())
+				}
+			case *ssa.MapUpdate:
+				mt := in.Map.Type().Underlying().(*types.Map)
+				x.mapKeys(w, mt)
+			case *ssa.Alloc:
+				if in.Heap {
+					w.alloc = true
+					t := in.Type().(*types.Pointer).Elem()
+					x.addKeys(w, objLoc(t, "r"), t)
+				}
+			case *ssa.MakeSlice:
+				w.alloc = true
+				el := in.Type().Underlying().(*types.Slice).Elem()
+				x.addKeys(w, loc{key: "E:" + typeKey(el), idx: []string{"a", "i"}}, el)
+			case *ssa.MakeMap:
+				w.alloc = true
+				x.mapKeys(w, in.Type().Underlying().(*types.Map))
+			case *ssa.MakeInterface:
+				if k := kindOf(in.X.Type()); k != kPointer && k != kMap && k != kFunc {
+					w.alloc = true
+					x.addKeys(w, loc{key: "B:" + typeKey(in.X.Type()), idx: []string{"r"}}, in.X.Type())
+				}
+			case *ssa.Convert:
+				if kindOf(in.X.Type()) == kString && kindOf(in.Type()) == kSlice {
+					w.alloc = true
+					el := in.Type().Underlying().(*types.Slice).Elem()
+					x.addKeys(w, loc{key: "E:" + typeKey(el), idx: []string{"a", "i"}}, el)
+				}
+			case ssa.CallInstruction:
+				x.callWrites(w, in.Common())
+			}
+		}
+	}
+	return w
+}
+
+func (x *X) mapKeys(w *writeSet, mt *types.Map) {
+	dummy := x.zero(mt.Key())
+	l := x.mapLoc(mt, "r", dummy)
+	x.addKeys(w, l, mt.Elem())
+	w.keys[l.key+"#has"] = heapSortFor(l, SBool)
+	w.keys["M:"+typeKey(mt)+"#len"] = arrSort(SInt)
+}
+
+func (x *X) callWrites(w *writeSet, c *ssa.CallCommon) {
+	if b, ok := c.Value.(*ssa.Builtin); ok {
+		switch b.Name() {
+		case "append":
+			w.alloc = true
+			el := c.Args[0].Type().Underlying().(*types.Slice).Elem()
+			x.addKeys(w, loc{key: "E:" + typeKey(el), idx: []string{"a", "i"}}, el)
+		case "copy":
+			el := c.Args[0].Type().Underlying().(*types.Slice).Elem()
+			x.addKeys(w, loc{key: "E:" + typeKey(el), idx: []string{"a", "i"}}, el)
+		case "delete":
+			mt := c.Args[0].Type().Underlying().(*types.Map)
+			dummy := x.zero(mt.Key())
+			l := x.mapLoc(mt, "r", dummy)
+			w.keys[l.key+"#has"] = heapSortFor(l, SBool)
+			w.keys["M:"+typeKey(mt)+"#len"] = arrSort(SInt)
+		}
+		return
+	}
+	if c.IsInvoke() {
+		if fullIs(c.Method, "error", "Error") {
+			return
+		}
+		if !c.Method.Exported() && isRepoPkg(c.Method.Pkg()) {
+			it := c.Value.Type().Underlying().(*types.Interface)
+			scope := c.Method.Pkg().Scope()
+			for _, n := range scope.Names() {
+				tn, ok := scope.Lookup(n).(*types.TypeName)
+				if !ok {
+					continue
+				}
+				for _, t := range []types.Type{tn.Type(), types.NewPointer(tn.Type())} {
+					if _, isI := tn.Type().Underlying().(*types.Interface); isI {
+						continue
+					}
+					if types.Implements(t, it) {
+						if m := x.prog.SSA.LookupMethod(t, c.Method.Pkg(), c.Method.Name()); m != nil {
+							w.union(x.fnWrites(m))
+						}
+						break
+					}
+				}
+			}
+			return
+		}
+		w.all = true
+		return
+	}
+	f := c.StaticCallee()
+	if f == nil {
+		if mc, ok := c.Value.(*ssa.MakeClosure); ok {
+			f = mc.Fn.(*ssa.Function)
+		}
+	}
+	if f == nil {
+		w.all = true
+		return
+	}
+	full := f.String()
+	if f.Origin() != nil {
+		full = f.Origin().String()
+	}
+	if ew, ok := externWrites[full]; ok {
+		ew(x, w, c)
+		return
+	}
+	if _, ok := externModels[full]; ok {
+		return // modelled extern without declared writes: pure
+	}
+	if p := pkgOf(f); p != nil && purePkgs[p.Path()] {
+		return
+	}
+	if x.specs != nil {
+		if fs := x.specs.Funcs[FuncName(f)]; fs != nil && fs.Modifies != nil {
+			for _, m := range fs.Modifies {
+				x.addModifies(w, m)
+			}
+			return
+		}
+		if fs := x.specs.Funcs[FuncName(f)]; fs != nil && fs.Pure {
+			return
+		}
+	}
+	if f.Blocks != nil && isRepoPkg(pkgOf(f)) {
+		w.union(x.fnWrites(f))
+		return
+	}
+	w.all = true
+}
+
+// addModifies adds the heap keys named by a modifies clause entry
+// ("Type.field", "E:elemtype", "alloc", "nothing").
+func (x *X) addModifies(w *writeSet, m string) {
+	switch m {
+	case "nothing":
+		return
+	case "alloc":
+		w.alloc = true
+		return
+	}
+	for k, s := range x.heapSorts {
+		if k == m || strings.HasPrefix(k, m+"#") || strings.HasPrefix(k, m+".") {
+			w.keys[k] = s
+		}
+	}
+	w.keys["@"+m] = "" // prefix marker: keys materialised later are matched by prefix
+}
+
+var externWrites = map[string]func(x *X, w *writeSet, c *ssa.CallCommon){}
+
+// ---- havoc ----
+
+func (x *X) havocAlloc() {
+	old := x.heapCur("ALLOC", arrSort(SBool))
+	n := x.sc.Fresh("alloc", arrSort(SBool))
+	x.sc.Assert(fmt.Sprintf("(forall ((r Int)) (! (=> (select %s r) (select %s r)) :pattern ((select %s r))))", old, n, n))
+	x.sc.Assert(fmt.Sprintf("(not (select %s 0))", n))
+	x.st.heap["ALLOC"] = n
+}
+
+func (x *X) havocWrites(w *writeSet, why string) {
+	if w.all {
+		x.havocHeap(why)
+		for c := range x.st.cells {
+			_ = c
+		}
+		return
+	}
+	var keys []string
+	for k := range w.keys {
+		keys = append(keys, k)
+	}
+	sort.Strings(keys)
+	for _, k := range keys {
+		if strings.HasPrefix(k, "@") {
+			p := k[1:]
+			for hk := range x.st.heap {
+				if hk == p || strings.HasPrefix(hk, p+"#") || strings.HasPrefix(hk, p+".") {
+					x.st.heap[hk] = x.sc.Fresh("hv."+hk, x.heapSorts[hk])
+					x.written[hk] = true
+				}
+			}
+			continue
+		}
+		srt := w.keys[k]
+		if old, ok := x.heapSorts[k]; ok {
+			srt = old
+		} else {
+			x.heapSorts[k] = srt
+			x.sc.Declare("H0."+sanitize(k), nil, srt)
+		}
+		x.st.heap[k] = x.sc.Fresh("hv."+k, srt)
+		x.written[k] = true
+	}
+	if w.alloc {
+		x.havocAlloc()
+	}
+}
+
+// ---- loops in VC mode ----
+
+func (x *X) loopOrdinal(fr *frame, li *loopInfo) int {
+	var hs []int
+	for h := range fr.loops {
+		hs = append(hs, h)
+	}
+	sort.Slice(hs, func(i, j int) bool {
+		pi, pj := loopPos(fr.fn.Blocks[hs[i]]), loopPos(fr.fn.Blocks[hs[j]])
+		if pi != pj {
+			return pi < pj
+		}
+		return hs[i] < hs[j]
+	})
+	for i, h := range hs {
+		if h == li.header.Index {
+			return i
+		}
+	}
+	return -1
+}
+
+func loopPos(b *ssa.BasicBlock) token.Pos {
+	for _, in := range b.Instrs {
+		if in.Pos().IsValid() {
+			return in.Pos()
+		}
+	}
+	return token.NoPos
+}
+
+// envAt builds the environment for specification expressions at a loop
+// header or function exit: parameters, named phis, named locals.
+func (x *X) envAt(fr *frame, li *loopInfo, phiVals map[*ssa.Phi]Val) *Env {
+	pkg := pkgOf(fr.fn)
+	env := &Env{vars: map[string]TV{}, pkg: pkg}
+	// named values from debug refs that dominate the header (outside the loop)
+	for _, b := range fr.fn.Blocks {
+		if li != nil && (li.blocks[b.Index] || !b.Dominates(li.header)) {
+			continue
+		}
+		for _, in := range b.Instrs {
+			if dr, ok := in.(*ssa.DebugRef); ok && !dr.IsAddr {
+				if id, ok := dr.Expr.(interface{ String() string }); ok {
+					_ = id
+				}
+				if v, ok := fr.vals[dr.X]; ok {
+					if name := debugName(dr); name != "" {
+						env.vars[name] = TV{v, dr.X.Type()}
+					}
+				}
+			}
+		}
+	}
+	for c, cell := range fr.cells {
+		if c.Comment != "" && !c.Heap {
+			if v, ok := x.st.cells[cell]; ok {
+				env.vars[c.Comment] = TV{v, c.Type().(*types.Pointer).Elem()}
+			}
+		}
+	}
+	for _, p := range fr.fn.Params {
+		if v, ok := fr.vals[p]; ok {
+			env.vars[p.Name()] = TV{v, p.Type()}
+		}
+	}
+	for _, fv := range fr.fn.FreeVars {
+		if v, ok := fr.vals[fv]; ok {
+			if p, isPtr := v.(Ptr); isPtr {
+				// captured variable: expose its current value
+				func() {
+					defer func() { recover() }()
+					env.vars[fv.Name()] = TV{x.load(p), fv.Type().(*types.Pointer).Elem()}
+				}()
+			}
+		}
+	}
+	for phi, v := range phiVals {
+		if phi.Comment != "" {
+			env.vars[phi.Comment] = TV{v, phi.Type()}
+		}
+	}
+	return env
+}
+
+func debugName(dr *ssa.DebugRef) string {
+	if id, ok := dr.Expr.(interface{ String() string }); ok {
+		s := id.String()
+		if !strings.ContainsAny(s, " .()[]") {
+			return s
+		}
+	}
+	return ""
+}
+
+func (x *X) cutLoop(fr *frame, order []*ssa.BasicBlock, li *loopInfo) {
+	h := li.header
+	entries := fr.in[h.Index]
+	entry := x.mergeEdges(entries)
+	if entry == nil {
+		return
+	}
+	var spec *LoopSpec
+	ord := x.loopOrdinal(fr, li)
+	if x.specs != nil {
+		if fs := x.specs.Funcs[FuncName(fr.fn)]; fs != nil {
+			spec = fs.Loops[ord]
+		}
+	}
+	var phis []*ssa.Phi
+	for _, in := range h.Instrs {
+		if p, ok := in.(*ssa.Phi); ok {
+			phis = append(phis, p)
+		}
+	}
+	// values on entry
+	entryVals := map[*ssa.Phi]Val{}
+	for _, phi := range phis {
+		var val Val
+		first := true
+		for i := len(entries) - 1; i >= 0; i-- {
+			e := entries[i]
+			if e.st.cond == "false" {
+				continue
+			}
+			pi := -1
+			for k, p := range h.Preds {
+				if p.Index == e.from {
+					pi = k
+				}
+			}
+			v := x.get(fr, phi.Edges[pi])
+			if first {
+				val, first = v, false
+			} else {
+				val = x.mergeVals(e.st.cond, v, val)
+			}
+		}
+		entryVals[phi] = x.nameVal(valueHint(phi)+".in", val)
+	}
+	site := fmt.Sprintf("loop %d", ord)
+	pos := loopPos(h)
+	x.st = entry
+	var invs []string
+	if spec != nil {
+		invs = spec.Invariants
+	}
+	// invariants hold on entry
+	if len(invs) > 0 {
+		env := x.envAt(fr, li, entryVals)
+		for i, inv := range invs {
+			x.oblige("inv.entry", fmt.Sprintf("%s invariant %d: %s", site, i+1, inv), pos, x.evalBool(env, inv))
+		}
+	}
+	// havoc what the loop may change
+	w := x.blockWrites(fr.fn, li.blocks)
+	x.st = entry.clone()
+	x.havocWrites(w, "loop body")
+	for a := range w.cells {
+		if cell, ok := fr.cells[a]; ok {
+			if _, live := x.st.cells[cell]; live {
+				x.st.cells[cell] = x.freshVal(cell.typ, cell.name)
+			}
+		}
+	}
+	for _, b := range fr.fn.Blocks {
+		if !li.blocks[b.Index] {
+			continue
+		}
+		for _, in := range b.Instrs {
+			if nx, ok := in.(*ssa.Next); ok {
+				if rg, ok := nx.Iter.(*ssa.Range); ok {
+					if it, ok := fr.iters[rg]; ok {
+						pos := x.fresh("rangepos", SInt)
+						x.assume(fmt.Sprintf("(and (<= 0 %s) (<= %s (gs.len %s)))", pos, pos, it.Str))
+						x.st.cells[it.Cell] = S{pos, SInt}
+					}
+				}
+			}
+		}
+	}
+	phiVals := map[*ssa.Phi]Val{}
+	for _, phi := range phis {
+		// a phi whose back edges carry the phi itself does not change in the loop
+		invariantPhi := true
+		for i, pred := range h.Preds {
+			for _, bi := range li.backs {
+				if bi == pred.Index && phi.Edges[i] != phi {
+					invariantPhi = false
+				}
+			}
+		}
+		if invariantPhi {
+			phiVals[phi] = entryVals[phi]
+			fr.vals[phi] = entryVals[phi]
+			continue
+		}
+		v := x.freshVal(phi.Type(), valueHint(phi))
+		if p, isPtr := entryVals[phi].(Ptr); isPtr && p.Kind != pObj {
+			unsup("loop-carried interior pointer")
+		}
+		phiVals[phi] = v
+		fr.vals[phi] = v
+	}
+	headState := x.st
+	// automatic invariant of counting loops: the counter does not run below its start,
+	// and stays within the bound when it started within it
+	if cphi, _ := counterOf2(li); cphi != nil {
+		c0 := entryVals[cphi].(S).T
+		cv := phiVals[cphi].(S).T
+		x.assume(fmt.Sprintf("(<= %s %s)", c0, cv))
+		if n, ok := boundOf(li, cphi); ok {
+			nt := ""
+			if nv, ok := fr.vals[n]; ok || isConst(n) {
+				if !ok {
+					nv = x.get(fr, n)
+				}
+				nt = nv.(S).T
+			} else if call, ok := n.(*ssa.Call); ok {
+				// len(x) recomputed in the header, x defined outside the loop
+				if av, ok := fr.vals[call.Call.Args[0]]; ok {
+					switch a := av.(type) {
+					case Slice:
+						nt = a.Len
+					case S:
+						if kindOf(call.Call.Args[0].Type()) == kString {
+							nt = "(gs.len " + a.T + ")"
+						}
+					}
+				}
+			}
+			if nt != "" {
+				// i <= max(c0, n): induction over +1 steps guarded by i < n
+				x.assume(fmt.Sprintf("(or (<= %s %s) (<= %s %s))", cv, nt, cv, c0))
+			}
+		}
+	}
+	var d0 string
+	if len(invs) > 0 || (spec != nil && spec.Decreases != "") {
+		env := x.envAt(fr, li, phiVals)
+		for _, inv := range invs {
+			x.assume(x.evalBool(env, inv))
+		}
+		if spec != nil && spec.Decreases != "" {
+			d0 = x.define("variant", SInt, x.evalSrc(env, spec.Decreases).V.(S).T)
+		}
+	}
+	// run the body once from the arbitrary iteration
+	saveLoop, saveExits, saveIn := fr.inLoop, fr.exitsTo, fr.in[h.Index]
+	fr.inLoop, fr.exitsTo = li, nil
+	fr.in[h.Index] = []edge{{from: -1, to: h.Index, st: headState}}
+	var sub []*ssa.BasicBlock
+	for _, b := range order {
+		if li.blocks[b.Index] {
+			sub = append(sub, b)
+		}
+	}
+	x.runBlock(fr, h, li.blocks)
+	x.runBlocks(fr, sub[1:], li.blocks)
+	exits := fr.exitsTo
+	fr.inLoop, fr.exitsTo = saveLoop, saveExits
+	fr.in[h.Index] = saveIn
+	for _, e := range exits {
+		if e.to != h.Index {
+			fr.in[e.to] = append(fr.in[e.to], e)
+			continue
+		}
+		// back edge: invariants are preserved, variant decreases
+		pi := -1
+		for k, p := range h.Preds {
+			if p.Index == e.from {
+				pi = k
+			}
+		}
+		x.st = e.st
+		next := map[*ssa.Phi]Val{}
+		for _, phi := range phis {
+			next[phi] = x.get(fr, phi.Edges[pi])
+		}
+		if len(invs) > 0 || d0 != "" {
+			env := x.envAt(fr, li, next)
+			for i, inv := range invs {
+				x.oblige("inv.preserve", fmt.Sprintf("%s invariant %d: %s", site, i+1, inv), pos, x.evalBool(env, inv))
+			}
+			if d0 != "" {
+				d1 := x.evalSrc(env, spec.Decreases).V.(S).T
+				x.oblige("decreases", fmt.Sprintf("%s variant %s", site, spec.Decreases), pos, fmt.Sprintf("(and (<= 0 %s) (< %s %s))", d0, d1, d0))
+			}
+		}
+	}
+	// restore phi values for code after the loop (they denote the exit iteration)
+	for _, phi := range phis {
+		fr.vals[phi] = phiVals[phi]
+	}
+}
+
+func isConst(v ssa.Value) bool { _, ok := v.(*ssa.Const); return ok }
+
+// counterOf2 finds a counter among possibly several header phis: a phi whose
+// back-edge values are all phi+1.
+func counterOf2(li *loopInfo) (*ssa.Phi, string) {
+	h := li.header
+	for _, in := range h.Instrs {
+		p, ok := in.(*ssa.Phi)
+		if !ok {
+			break
+		}
+		good := true
+		for i, pred := range h.Preds {
+			back := false
+			for _, bi := range li.backs {
+				if bi == pred.Index {
+					back = true
+				}
+			}
+			if !back {
+				continue
+			}
+			b, ok := p.Edges[i].(*ssa.BinOp)
+			if !ok || b.Op != token.ADD || b.X != p {
+				good = false
+				break
+			}
+			if c, ok := constInt(b.Y); !ok || c != 1 {
+				good = false
+				break
+			}
+		}
+		if good && kindOf(p.Type()) == kInt {
+			return p, ""
+		}
+	}
+	return nil, "no counter"
+}
+
+// boundOf returns n when the header tests `counter < n` (or counter+1 < n) with n loop-invariant.
+func boundOf(li *loopInfo, p *ssa.Phi) (ssa.Value, bool) {
+	h := li.header
+	iff, ok := h.Instrs[len(h.Instrs)-1].(*ssa.If)
+	if !ok {
+		return nil, false
+	}
+	cmp, ok := iff.Cond.(*ssa.BinOp)
+	if !ok || cmp.Op != token.LSS {
+		return nil, false
+	}
+	if cmp.X != p {
+		// range form: the header computes p+1 and tests it; p itself then stays below the bound too
+		inc, ok := cmp.X.(*ssa.BinOp)
+		if !ok || inc.Op != token.ADD || inc.X != p {
+			return nil, false
+		}
+		if c, ok := constInt(inc.Y); !ok || c != 1 {
+			return nil, false
+		}
+	}
+	if ins, ok := cmp.Y.(ssa.Instruction); ok && li.blocks[ins.Block().Index] {
+		// len(x) of a value defined outside the loop is loop-invariant (strings are immutable;
+		// a slice value is an SSA value, its header does not change)
+		if call, ok := cmp.Y.(*ssa.Call); ok {
+			if b, ok := call.Call.Value.(*ssa.Builtin); ok && b.Name() == "len" {
+				arg := call.Call.Args[0]
+				if ai, ok := arg.(ssa.Instruction); !ok || !li.blocks[ai.Block().Index] {
+					if k := kindOf(arg.Type()); k == kString || k == kSlice {
+						return cmp.Y, true
+					}
+				}
+			}
+		}
+		return nil, false
+	}
+	return cmp.Y, true
+}
+
+// ---- append / copy ----
+
 func (x *X) appendVC(fr *frame, in ssa.Instruction, c *ssa.CallCommon, args []Val) Val {
-	unsup("append not implemented yet")
-	return nil
+	st := c.Args[0].Type().Underlying().(*types.Slice)
+	el := st.Elem()
+	s := args[0].(Slice)
+	var t Slice
+	var tstr string
+	switch a := args[1].(type) {
+	case Slice:
+		t = a
+	case S: // append([]byte, string...)
+		tstr = a.T
+		t = Slice{"0", "0", "(gs.len " + a.T + ")", "(gs.len " + a.T + ")"}
+	default:
+		unsup("append of %T", args[1])
+	}
+	n := x.define("n", SInt, "(+ "+s.Len+" "+t.Len+")")
+	inplace := x.define("inplace", SBool, "(<= "+n+" "+s.Cap+")")
+	r := x.newRef("grown")
+	ncap := x.fresh("newcap", SInt)
+	x.assume(fmt.Sprintf("(and (>= %s %s) (<= %s 4611686018427387904))", ncap, n, ncap))
+	res := Slice{
+		Arr: x.define("app.arr", SInt, ite(inplace, s.Arr, r)),
+		Off: x.define("app.off", SInt, ite(inplace, s.Off, "0")),
+		Len: n,
+		Cap: x.define("app.cap", SInt, ite(inplace, s.Cap, ncap)),
+	}
+	// appending nothing to a nil slice keeps it nil
+	res.Arr = x.define("app.arr", SInt, ite(and(eq(t.Len, "0"), eq(s.Arr, "0")), "0", res.Arr))
+	ls, ok := x.leavesOf(el)
+	if !ok {
+		unsup("append of elements of type %s", el)
+	}
+	for _, lf := range ls {
+		key := "E:" + typeKey(el) + lf.key
+		srt := arr2Sort(lf.sort)
+		old := x.heapCur(key, srt)
+		x.touched[key], x.written[key] = true, true
+		nh := x.sc.Fresh("app."+key, srt)
+		src := "(select (select " + old + " " + t.Arr + ") (+ " + t.Off + " (- j " + res.Off + " " + s.Len + ")))"
+		if tstr != "" {
+			src = "(gs.at " + tstr + " (- j " + res.Off + " " + s.Len + "))"
+		}
+		x.sc.Assert(fmt.Sprintf("(forall ((a Int) (j Int)) (! (= (select (select %s a) j) (ite (and (= a %s) (<= (+ %s %s) j) (< j (+ %s %s))) %s (ite (and (not %s) (= a %s) (<= 0 j) (< j %s)) (select (select %s %s) (+ %s j)) (select (select %s a) j)))) :pattern ((select (select %s a) j))))",
+			nh, res.Arr, res.Off, s.Len, res.Off, n, src, inplace, r, s.Len, old, s.Arr, s.Off, old, nh))
+		x.st.heap[key] = nh
+	}
+	return res
 }
 
 func (x *X) copyVC(fr *frame, in ssa.Instruction, c *ssa.CallCommon, args []Val) Val {
-	unsup("copy not implemented yet")
-	return nil
+	el := c.Args[0].Type().Underlying().(*types.Slice).Elem()
+	d := args[0].(Slice)
+	var srcLen string
+	var srcAt func(old, j string) string
+	switch a := args[1].(type) {
+	case Slice:
+		srcLen = a.Len
+		srcAt = func(old, j string) string {
+			return "(select (select " + old + " " + a.Arr + ") (+ " + a.Off + " " + j + "))"
+		}
+	case S:
+		srcLen = "(gs.len " + a.T + ")"
+		srcAt = func(old, j string) string { return "(gs.at " + a.T + " " + j + ")" }
+	default:
+		unsup("copy from %T", args[1])
+	}
+	n := x.define("ncopy", SInt, fmt.Sprintf("(ite (< %s %s) %s %s)", d.Len, srcLen, d.Len, srcLen))
+	ls, ok := x.leavesOf(el)
+	if !ok {
+		unsup("copy of elements of type %s", el)
+	}
+	for _, lf := range ls {
+		key := "E:" + typeKey(el) + lf.key
+		srt := arr2Sort(lf.sort)
+		old := x.heapCur(key, srt)
+		x.touched[key], x.written[key] = true, true
+		nh := x.sc.Fresh("cp."+key, srt)
+		x.sc.Assert(fmt.Sprintf("(forall ((a Int) (j Int)) (! (= (select (select %s a) j) (ite (and (= a %s) (<= %s j) (< j (+ %s %s))) %s (select (select %s a) j))) :pattern ((select (select %s a) j))))",
+			nh, d.Arr, d.Off, d.Off, n, srcAt(old, "(- j "+d.Off+")"), old, nh))
+		x.st.heap[key] = nh
+	}
+	return S{n, SInt}
 }
 
+// ---- calls through contracts ----
+
 func (x *X) callContract(f *ssa.Function, fs *FuncSpec, args []Val, in ssa.Instruction) Val {
-	unsup("contract calls not implemented yet")
-	return nil
+	pkg := pkgOf(f)
+	env := &Env{vars: map[string]TV{}, pkg: pkg}
+	for i, p := range f.Params {
+		env.vars[p.Name()] = TV{args[i], p.Type()}
+	}
+	var pos token.Pos
+	site := "call of " + FuncName(f)
+	if in != nil {
+		pos = in.Pos()
+		site = x.site(pos, site)
+	}
+	for _, r := range fs.Requires {
+		x.oblige("pre", site+" requires "+r, pos, x.evalBool(env, r))
+	}
+	old := x.st.clone()
+	if !fs.Pure {
+		var w *writeSet
+		if fs.Modifies != nil {
+			w = newWriteSet()
+			for _, m := range fs.Modifies {
+				x.addModifies(w, m)
+			}
+		} else {
+			w = x.fnWrites(f)
+		}
+		x.havocWrites(w, "call of "+FuncName(f))
+	}
+	rt := resultType(f.Signature)
+	res := x.freshVal(rt, sanitize(f.Name())+".res")
+	env.old = old
+	bindResult(env, res, rt)
+	for _, e := range fs.Ensures {
+		x.assume(implies(x.st.cond, x.evalBool(env, e)))
+	}
+	return res
+}
+
+func bindResult(env *Env, res Val, rt types.Type) {
+	if tt, ok := rt.(*types.Tuple); ok {
+		if tt.Len() == 0 {
+			return
+		}
+		for i := 0; i < tt.Len(); i++ {
+			env.vars[fmt.Sprintf("result%d", i)] = TV{res.(Tup).E[i], tt.At(i).Type()}
+		}
+		return
+	}
+	env.vars["result"] = TV{res, rt}
+}
+
+// ---- verifying one function ----
+
+// VerifyFunc generates and decides the verification conditions of fn under
+// its contract (possibly empty: then only the implicit safety obligations).
+func VerifyFunc(prog *Prog, specs *Specs, fn *ssa.Function, tier string, c *checkCtx, kinds map[string]bool) (res []OblResult) {
+	return verifyFuncFiltered(prog, specs, fn, tier, c, kinds, nil)
+}
+
+// verifyFuncFiltered: obligations rejected by filter are generated but not
+// sent to the solvers (status "skipped"). A function whose obligations are
+// renamed in place is solved entirely, so that positional re-matching works.
+func verifyFuncFiltered(prog *Prog, specs *Specs, fn *ssa.Function, tier string, c *checkCtx, kinds map[string]bool, base map[string]bool) (res []OblResult) {
+	name := FuncName(fn)
+	fs := specs.Funcs[name]
+	if fs == nil {
+		fs = &FuncSpec{Name: name, Loops: map[int]*LoopSpec{}}
+	}
+	x := NewX(prog, specs, modeVC)
+	x.unfold = map[string]bool{name: true}
+	x.curFn = name
+	defer func() {
+		if r := recover(); r != nil {
+			u, ok := r.(unsupported)
+			if !ok {
+				panic(r)
+			}
+			res = []OblResult{{Name: name + "#subset:", Status: "unsupported", Detail: u.why, Func: name, Kind: "subset"}}
+		}
+	}()
+	pkg := pkgOf(fn)
+	env := &Env{vars: map[string]TV{}, pkg: pkg}
+	var args []Val
+	for _, p := range fn.Params {
+		v := x.freshVal(p.Type(), p.Name())
+		args = append(args, v)
+		env.vars[p.Name()] = TV{v, p.Type()}
+	}
+	var free []Val
+	for _, fv := range fn.FreeVars {
+		// captured variables: fresh boxes
+		t := fv.Type().(*types.Pointer).Elem()
+		r := x.fresh(fv.Name(), SInt)
+		x.assume(fmt.Sprintf("(and (> %s 0) (select ALLOC0 %s))", r, r))
+		free = append(free, Ptr{Kind: pObj, Obj: r, Root: t})
+	}
+	for _, r := range fs.Requires {
+		x.sc.Assert(x.evalBool(env, r))
+	}
+	old := x.st.clone()
+	ret := x.execFunc(fn, args, free)
+	env.old = old
+	bindResult(env, ret, resultType(fn.Signature))
+	for i, e := range fs.Ensures {
+		if x.st.cond == "false" {
+			break
+		}
+		x.oblige("post", fmt.Sprintf("ensures %d: %s", i+1, e), fn.Pos(), x.evalBool(env, e))
+	}
+	if c != nil {
+		c.mu.Lock()
+		c.fns[name+" (verification conditions)"] = true
+		for e := range x.externs {
+			c.ext[e] = true
+		}
+		c.mu.Unlock()
+	}
+	timeout := 20
+	if tier == "thorough" {
+		timeout = 120
+	}
+	out := make([]OblResult, len(x.obls))
+	var jobs []int
+	skipped := map[int]bool{}
+	for i, o := range x.obls {
+		if kinds != nil && !kinds[o.Kind] {
+			continue
+		}
+		jobs = append(jobs, i)
+		if base != nil && !base[o.Name] {
+			skipped[i] = true
+		}
+	}
+	if base != nil {
+		// if some inventory obligation of this function was not generated, sites were edited: solve everything
+		gen := map[string]bool{}
+		for _, o := range x.obls {
+			gen[o.Name] = true
+		}
+		for n := range base {
+			if strings.HasPrefix(n, name+"#") && !gen[n] {
+				skipped = map[int]bool{}
+				break
+			}
+		}
+	}
+	sem := make(chan struct{}, 4)
+	done := make(chan int, len(jobs))
+	for _, i := range jobs {
+		go func(i int) {
+			sem <- struct{}{}
+			defer func() { <-sem; done <- i }()
+			o := x.obls[i]
+			if skipped[i] {
+				out[i] = OblResult{Name: o.Name, Status: "skipped", Kind: o.Kind, Site: o.Site, Func: o.Func, Order: i}
+				return
+			}
+			pre := strings.Join(x.sc.lines[:o.Prefix], "\n") + "\n"
+			q := pre + x.strLitDeclsFor(pre) + "(assert " + o.Cond + ")\n(assert (not " + o.Goal + "))\n"
+			var r OblResult
+			if fast := solveOneCtx(context.Background(), o.Name, instVariant(q), 3, "z3-new-5.1.0"); fast.Status == "unsat" && tier != "thorough" {
+				r = OblResult{Name: o.Name, Status: "proved", Solver: fast.Solver, Secs: fast.Secs, SMTBytes: len(q), Query: q}
+			} else {
+				r = decide(o.Name, q, timeout, tier == "thorough")
+			}
+			r.Kind, r.Site, r.Func, r.Order = o.Kind, o.Site, o.Func, i
+			out[i] = r
+		}(i)
+	}
+	for range jobs {
+		<-done
+	}
+	for _, i := range jobs {
+		res = append(res, out[i])
+	}
+	return res
 }
